@@ -316,6 +316,15 @@ const TEMPLATES: &[(&str, Option<&str>, &str)] = &[
     ("compound assignment to a tuple element held in a blob", None, "B :: blob {\n    pair: (int, int),\n}\n\nstart :: fn do\n    b := B { pair: (1, 2) }\n    b.pair[1] += 7\n    print(b.pair)\nend\n"),
     ("assignment to an element of a nested tuple", None, "start :: fn do\n    tt := ((1, 2), 3)\n    tt[0][1] = 5\n    print(tt)\nend\n"),
     // the name of a type where a value is expected
+    // `self` of a blob literal exists only once the blob is built: code that runs while the fields are being evaluated must not read it
+    ("self read by a function literal that a field initialiser calls at once", None, "R :: blob {\n    w: int,\n    h: int,\n    area: int,\n}\n\nnow :: fn f: fn -> int -> int do\n    f()\nend\n\nstart :: fn do\n    r := R { w: 2, h: 3, area: now(fn -> int do self.w * self.h end) }\n    print(r.area + 1)\nend\n"),
+    ("self read in another argument of the call that initialises a method field", None, "C :: blob {\n    base: int,\n    next: fn -> int,\n}\n\noffset :: fn b: int, step: fn -> int -> fn -> int do\n    fn -> int do b + step() end\nend\n\nstart :: fn do\n    c := C { base: 10, next: offset(self.base, fn -> int do 1 end) }\n    print(c.next() + 1)\nend\n"),
+    ("self read directly by a field initialiser", None, "R :: blob {\n    w: int,\n    twice: int,\n}\n\nstart :: fn do\n    r := R { w: 2, twice: self.w * 2 }\n    print(r.twice + 1)\nend\n"),
+    ("self read by a function literal that is called where it is written", None, "R :: blob {\n    w: int,\n    twice: int,\n}\n\nstart :: fn do\n    r := R { w: 2, twice: (fn -> int do self.w * 2 end)() }\n    print(r.twice + 1)\nend\n"),
+    ("self read by a function literal inside a list that a field initialiser folds at once", None, "R :: blob {\n    w: int,\n    sum: int,\n}\n\nstart :: fn do\n    r := R { w: 2, sum: fold([1, 2], 0, fn e: int, acc: int -> int do acc + e + self.w end) }\n    print(r.sum + 1)\nend\n"),
+    ("self read in an arrow call that initialises a field", None, "R :: blob {\n    w: int,\n    twice: int,\n}\n\ndbl :: fn a: int -> int do\n    a * 2\nend\n\nstart :: fn do\n    r := R { w: 2, twice: self.w -> dbl() }\n    print(r.twice + 1)\nend\n"),
+    ("self read by a method only after construction (sound)", None, "R :: blob {\n    w: int,\n    get: fn -> int,\n}\n\nstart :: fn do\n    r := R { w: 2, get: fn -> int do self.w * 2 end }\n    print(r.get() + 1)\nend\n"),
+    ("self of the outer blob read by the method of an inner blob literal", None, "I :: blob {\n    get: fn -> int,\n}\n\nO :: blob {\n    w: int,\n    mk: fn -> I,\n}\n\nstart :: fn do\n    o := O { w: 2, mk: fn -> I do\n        I { get: fn -> int do 7 end }\n    end }\n    print(o.mk().get() + o.w)\nend\n"),
     ("field read on the name of a blob type", None, "B :: blob {\n    n: int,\n}\n\nstart :: fn do\n    print(B.n)\nend\n"),
     ("field assignment on the name of a blob type", None, "B :: blob {\n    n: int,\n}\n\nstart :: fn do\n    B.n = 5\n    print(1)\nend\n"),
     ("name of a blob type stored in a variable and read through it", None, "B :: blob {\n    n: int,\n}\n\nstart :: fn do\n    y := B\n    print(y.n + 1)\nend\n"),
